@@ -408,7 +408,7 @@ def check_property(prop, tier, repo, only=None, seed=0):
             rp = write_replay(prop, o, scr, tier, all_obls, budget)
             replay_paths.append((o, rp))
 
-        write_evidence(prop, tier, seed, pspec, all_obls, infos, cmds, scratch_diff, known_hits, violations, undecided, time.time() - t0)
+        write_evidence(prop, tier, seed, pspec, all_obls, infos, cmds, scratch_diff, known_hits, violations, undecided, time.time() - t0, partial=bool(only))
 
         for kf, o in known_hits:
             log('KNOWN-FINDING: property=%s %s (%s)' % (prop, kf['what'], o.id))
@@ -501,7 +501,7 @@ def write_replay(prop, o, scr, tier, all_obls, budget):
     return rp, found
 
 
-def write_evidence(prop, tier, seed, pspec, obls, infos, cmds, scratch_diff, known_hits, violations, undecided, wall):
+def write_evidence(prop, tier, seed, pspec, obls, infos, cmds, scratch_diff, known_hits, violations, undecided, wall, partial=False):
     proved = [o for o in obls if o.status == 'discharged']
     failed = [o for o in obls if o.status == 'failed']
     bounded = [o for o in obls if o.status == 'bounded-ok']
@@ -559,7 +559,10 @@ def write_evidence(prop, tier, seed, pspec, obls, infos, cmds, scratch_diff, kno
         'wall_s': round(wall, 2),
         'violations': len(violations),
     }
-    with open(os.path.join(EVIDENCE, '%s.json' % prop), 'w') as f:
+    # a run restricted with --only is a development / replay run: it must not replace the evidence of the full check
+    out_dir = os.path.join(EVIDENCE, 'partial') if partial else EVIDENCE
+    os.makedirs(out_dir, exist_ok=True)
+    with open(os.path.join(out_dir, '%s.json' % prop), 'w') as f:
         json.dump(ev, f, indent=1)
 
 
